@@ -441,6 +441,11 @@ impl PoolImpl {
 
     /// Sends an event to Votor, panicking if Votor dropped the receiver.
     async fn send_votor_event(&self, event: PoolEvent) {
+        #[cfg(feature = "verif-hooks")]
+        crate::verif::record(crate::verif::VerifEvent::PoolEmit {
+            node: self.epoch_info.own_id(),
+            event: event.clone(),
+        });
         self.votor_event_channel
             .send(event)
             .await
@@ -461,6 +466,11 @@ impl Pool for PoolImpl {
     /// Adds a new certificate to the pool.
     #[hotpath::measure]
     async fn add_cert(&mut self, cert: ValidatedCert) -> Result<(), AddCertError> {
+        #[cfg(feature = "verif-hooks")]
+        crate::verif::record(crate::verif::VerifEvent::PoolCert {
+            node: self.epoch_info.own_id(),
+            cert: cert.clone().into_cert(),
+        });
         // ignore old and far-in-the-future certificates
         let slot = cert.slot();
         // TODO: set bounds exactly correctly
@@ -494,6 +504,11 @@ impl Pool for PoolImpl {
     /// Adds a new vote to the pool.
     #[hotpath::measure]
     async fn add_vote(&mut self, vote: ValidatedVote) -> Result<(), AddVoteError> {
+        #[cfg(feature = "verif-hooks")]
+        crate::verif::record(crate::verif::VerifEvent::PoolVote {
+            node: self.epoch_info.own_id(),
+            vote: vote.clone().into_vote(),
+        });
         // ignore old and far-in-the-future votes
         let slot = vote.slot();
         // TODO: set bounds exactly correctly
@@ -529,6 +544,10 @@ impl Pool for PoolImpl {
         // actually add the vote
         trace!("adding vote to pool: {vote:?}");
         let (new_certs, votor_events, blocks_to_repair) = slot_state.add_vote(vote, voter_stake);
+        #[cfg(feature = "verif-hooks")]
+        crate::verif::record(crate::verif::VerifEvent::PoolVoteCounted {
+            node: self.epoch_info.own_id(),
+        });
 
         // handle any resulting events
         for cert in new_certs {
